@@ -60,9 +60,9 @@ def reference(count, period, ws, we, hits):
 def gen_arg(rng, kind):
     r = rng.random()
     if kind == "count":
-        vals = ["1", "2", "3", "5", "-1", "0", "10", "+2"]
+        vals = ["1", "2", "3", "5", "-1", "0", "10", "+2", "-2", "-3", "-17"]     # below -1 is NOT the unlimited sentinel
     else:
-        vals = ["0", "1", "10", "1000", "5", "100", "+3"]
+        vals = ["0", "1", "10", "1000", "5", "100", "+3", "-1", "-250"]
     if r < 0.6:
         return rng.choice(vals)
     if r < 0.72:
